@@ -142,6 +142,8 @@ class SchemaGen:
                 p = r.choice([r.randint(1, 20), r.randint(1, 38)])
                 js["precision"] = p
                 js["scale"] = r.randint(0, p)
+                if r.random() < 0.25:
+                    del js["scale"]  # an omitted scale is zero
             self.features.add("logical")
             return js
         p = r.choice(PRIMS)
@@ -215,6 +217,8 @@ class SchemaGen:
                 if maxp >= 1:
                     p = r.randint(1, maxp)
                     js.update(logicalType="decimal", precision=p, scale=r.randint(0, p))
+                    if r.random() < 0.25:
+                        del js["scale"]
                     self.features.add("logical")
             self._decorate(js)
             self.defined[full] = ("fixed", js)
